@@ -8,6 +8,7 @@ import (
 	"sort"
 	"strings"
 	"testing"
+	"testing/synctest"
 	"time"
 
 	"go.uber.org/zap"
@@ -60,17 +61,36 @@ func TestReplayCases(t *testing.T) {
 		}
 		switch c.Kind {
 		case "seq":
-			e := newEnv(t, dir, c.Config, nil)
-			m := newModel(c.Config, e.pubs, c.LiteralLog)
-			for _, o := range c.Ops {
-				var sub int
-				if _, err := fmt.Sscanf(o[1:], "%d", &sub); err != nil || sub < 0 || sub >= nSubs || (o[0] != 'a' && o[0] != 'd') {
-					t.Fatalf("INCONCLUSIVE: %s: bad op %q", f, o)
+			// rotation configurations run in a bubble: not "Prone" = one virtual second per operation
+			var m *model
+			run := func(bubble bool) {
+				e := newEnv(t, dir, c.Config, nil)
+				e.inBubble = bubble
+				e.start()
+				m = newModel(c.Config, e.pubs, c.LiteralLog)
+				for _, o := range c.Ops {
+					var sub int
+					if _, err := fmt.Sscanf(o[1:], "%d", &sub); err != nil || sub < 0 || sub >= nSubs || (o[0] != 'a' && o[0] != 'd') {
+						m.fail(t, "C10/harness", "INCONCLUSIVE: %s: bad op %q", f, o)
+						break
+					}
+					if bubble && !c.Config.Prone {
+						time.Sleep(time.Second)
+					}
+					m.step(t, e, o[0] == 'a', sub, false)
 				}
-				m.step(t, e, o[0] == 'a', sub, false)
+				if bubble && !c.Config.Prone {
+					time.Sleep(time.Second)
+				}
+				m.finish(t, e)
+				e.close()
 			}
-			m.finish(t, e)
-			e.close()
+			if c.Config.MaxFileSize > 0 || c.Config.Started {
+				synctest.Test(t, func(*testing.T) { run(true) })
+			} else {
+				run(false)
+			}
+			m.report(t)
 			m.record("replay:" + filepath.Base(f))
 		case "dup":
 			gate := newGate(allocatedMsg)
